@@ -1,6 +1,7 @@
 import NxProofs.Cipher
 import NxProofs.Refine
 import NxProofs.RefineSend
+import NxProofs.Sys
 import NxProps.C04
 /-!
 # C01 — PRUDP reliable channel: in-order, exactly-once, uncorrupted delivery
@@ -177,5 +178,75 @@ example :
     GoodWin 0 ({ next := 1, packets := [] } : Window Packet) ∧ (∀ b, C04.toyEnv.decompress b = .ok b) := by
   refine ⟨by unfold SubWF; decide, ⟨rfl, rfl, fun _ => ⟨rfl, fun _ => ⟨_, rfl, rfl⟩⟩⟩, rfl, rfl, ?_, fun _ => rfl⟩
   intro kq h; cases h
+
+/-! ### the two endpoints and the network between them, as one system (`NxProofs/Sys.lean`)
+
+`Sys` = a sending `Conn`, a receiving `Conn`, and `net`: everything the sender ever handed to its transport for the substream.
+A step is an application `send` at the sender or the delivery of *any* element of `net` to the receiver's `process_reliable`
+(any order, any number of times; never = loss). `Good` = the coupling `Cpl` with an L2 channel state + the channel invariants.
+Hypotheses of a run (`Sys.runOk`, decidable, checked step by step): a `send` is refused at once (closed connection, invalid
+substream) or runs to its end on a live link — an exception out of the transport in the middle of a message is excluded
+(it leaves a hole in the id sequence; the application saw the exception); a delivered copy is within half the id space of
+the receiver's release point (16-bit ids, `half_window_needed`). Compression off (`compress = id`), as in the L1 sessions. -/
+
+open Nx.L1 Nx.Prudp in
+/-- the per-substream cipher of an endpoint (RC4 at a running position / none on stream transports) meets the channel's
+    cipher hypothesis for every key: `CipherOk` is not an assumption about the endpoints -/
+theorem endpoint_cipher_ok (c : Conn) (sub : Nat) : CipherOk (cipherOf c sub) := cipherOf_ok c sub
+
+open Nx.L1 Nx.Prudp in
+/-- **every run of the two-endpoint system is a run of the L2 channel** (same sends, arrivals of the same log entries),
+    within the channel's half-window hypothesis, and the coupling holds at its end -/
+theorem C01_system_refines_channel (env : Env) (hcomp : ∀ b, env.compress b = b) (hdec : ∀ b, env.decompress b = .ok b)
+    (sub : Nat) (ci : Cipher) (size : Nat) (hsz : 1 ≤ size) (start : Nat) (ops : List SysOp) (s : Sys) (ch : Chan)
+    (h0 : Good sub ci size start s ch) (hok : Sys.runOk env sub s ops = true) :
+    Good sub ci size start (Sys.run env sub s ops) (Chan.run ci size ch (Sys.absOps env sub s ops)) ∧
+    Chan.runOk ci size ch (Sys.absOps env sub s ops) = true :=
+  sys_refines env hcomp hdec sub ci size hsz start ops s ch h0 hok
+
+open Nx.L1 Nx.Prudp in
+/-- **Safety, end to end.** Whatever the network does with what the sending endpoint emitted, what the receiving
+    application can `recv` on the substream is a prefix of the messages the sending application's `send` accepted. -/
+theorem C01_system_safety (env : Env) (hcomp : ∀ b, env.compress b = b) (hdec : ∀ b, env.decompress b = .ok b)
+    (sub : Nat) (ci : Cipher) (size : Nat) (hsz : 1 ≤ size) (start : Nat) (ops : List SysOp) (s : Sys) (ch : Chan)
+    (h0 : Good sub ci size start s ch) (hok : Sys.runOk env sub s ops = true) :
+    ((Sys.run env sub s ops).b.queues[sub]?.getD []) <+: (Sys.run env sub s ops).accepted :=
+  good_safe (sys_refines env hcomp hdec sub ci size hsz start ops s ch h0 hok).1
+
+open Nx.L1 Nx.Prudp in
+/-- **Completeness, end to end.** Once the receiver's window has released as many packets as the sender emitted,
+    the receiving application has exactly the accepted messages, and no partial message is pending. -/
+theorem C01_system_complete (env : Env) (hcomp : ∀ b, env.compress b = b) (hdec : ∀ b, env.decompress b = .ok b)
+    (sub : Nat) (ci : Cipher) (size : Nat) (hsz : 1 ≤ size) (start : Nat) (ops : List SysOp) (s : Sys) (ch : Chan)
+    (h0 : Good sub ci size start s ch) (hok : Sys.runOk env sub s ops = true)
+    (hall : (Sys.run env sub s ops).nrel = (Sys.run env sub s ops).net.length) :
+    ((Sys.run env sub s ops).b.queues[sub]?.getD []) = (Sys.run env sub s ops).accepted ∧
+    ((Sys.run env sub s ops).b.eof = false → ((Sys.run env sub s ops).b.fragBufs[sub]?.getD []) = []) :=
+  good_complete (sys_refines env hcomp hdec sub ci size hsz start ops s ch h0 hok).1 hall
+
+open Nx.L1 Nx.Prudp in
+/-- the hypothesis `Good` holds at the start: for every environment, every substream the settings allow and every choice of
+    addresses, ports, session ids and random draws, two freshly constructed endpoints are coupled with the initial channel -/
+theorem C01_system_initial (env : Env) (sub : Nat) (hsub : sub ≤ env.s.maxSubstreamId)
+    (va vb : Option Nat) (ua ca sa ub cb sb : Nat) (la ra lb rb : Addr) (lpa lta rpa rta lpb ltb rpb rtb : Nat) (st : Nat) :
+    let a := { Conn.new env va ua ca sa la lpa lta ra rpa rta with state := st }
+    let b := Conn.new env vb ub cb sb lb lpb ltb rb rpb rtb
+    Good sub (cipherOf a sub) env.s.fragmentSize 1 (Sys.fresh a b) (Chan.init 1) :=
+  fresh_good env sub hsub va vb ua ca sa ub cb sb la ra lb rb lpa lta rpa rta lpb ltb rpb rtb st
+
+/-! non-vacuity of the system theorems: a run with a two-fragment message, reordering, duplication and a refused `send`
+    meets `Sys.runOk`, and the receiver ends up with exactly the accepted message (stream transport here, i.e. no RC4, only so
+    that the kernel evaluates the run in a second rather than minutes — RC4's key schedule on kernel arrays is slow; the theorems
+    themselves hold for every key, `endpoint_cipher_ok`) -/
+open Nx.L1 Nx.Prudp in
+example :
+    let env : Env := { C04.toyEnv with s := { fragmentSize := 2, transport := TRANSPORT_TCP } }
+    let a := { Conn.new env (some 1) 1 2 3 ("10.0.0.2", 1) 15 10 ("10.0.0.1", 2) 1 10 with state := STATE_CONNECTED }
+    let b := Conn.new env (some 1) 4 5 6 ("10.0.0.1", 2) 1 10 ("10.0.0.2", 1) 15 10
+    let ops := [SysOp.send 0 [1, 2, 3], .deliver 1, .deliver 1, .deliver 0, .send 5 [], .deliver 7]
+    Sys.runOk env 0 (Sys.fresh a b) ops = true ∧
+    (Sys.run env 0 (Sys.fresh a b) ops).b.queues = [[[1, 2, 3]]] ∧
+    (Sys.run env 0 (Sys.fresh a b) ops).accepted = [[1, 2, 3]] ∧
+    (Sys.run env 0 (Sys.fresh a b) ops).net.length = 2 ∧ (Sys.run env 0 (Sys.fresh a b) ops).nrel = 2 := by decide +kernel
 
 end Nx.C01
